@@ -1,6 +1,7 @@
 """C10 — memory and stream loading are equivalent wherever buffer boundaries fall."""
 from .scopegen import gen_scope_ops
 from .binstream_gen import gen_bs
+from .C10csv import gen_c10, THEOREMS_C10CSV, extra_checks_c10, nontrivial_c10
 
 THEOREMS = [
     "BSVerif.Props.C10.init_refines",
@@ -13,17 +14,19 @@ THEOREMS = [
     "BSVerif.Props.C10.setPosition_refines",
     "BSVerif.Props.C10.history_refines",
     "BSVerif.BinStream.readNextChunk_spec",
-]
+] + THEOREMS_C10CSV
 RULE = ("CBinaryStreamReader operation histories (peek/next/readByte/solid/chunks/setPosition/getPosition/isEnd) on byte strings of "
         "length 0..1000 aimed at the 256-byte cache boundary, judged against the abstract cursor; MsgPack scope histories run from "
         "memory AND from a stream on the same documents (paired ops must give identical answers); non-trivial = history touching "
         "more than one chunk or a backward SetPosition; distinct = distinct op lines")
 EXHAUSTIVE = {"quick": False, "thorough": False}
-ASSUMPTIONS = ["seekable std::istringstream; short-read and non-seekable streambufs are not modelled (flags only)",
+ASSUMPTIONS = ["CSV stream input is UTF-8 without BOM (encoding detection is C13)", "seekable std::istringstream; short-read and non-seekable streambufs are not modelled (flags only)",
                "chunk size fixed at 256 in the executed code; the model and theorems are generic in N"]
 
 
 def nontrivial(op, impl):
+    if op.startswith("csv."):
+        return nontrivial_c10(op, impl)
     return "set:" in op or len(op) > 600
 
 
@@ -35,6 +38,7 @@ def gen(tier, rng, boost=1):
         t = op.split(" ")
         ops.append(" ".join([t[0], "mem"] + t[2:]))
         ops.append(" ".join([t[0], "stream"] + t[2:]))
+    ops += gen_c10(tier, rng, boost)
     return ops
 
 
@@ -52,4 +56,5 @@ def extra_checks(ops, impl, res, known_classes, known_hits):
                 bad.append((op, ia, seen[key][1], "bad:memory_and_stream_answers_differ"))
         else:
             seen[key] = (t[1], ia)
+    bad += list(extra_checks_c10(ops, impl, res, known_classes, known_hits) or [])
     return bad
